@@ -2058,7 +2058,7 @@ struct Reg
             "non-trivial = at least two frames were delivered and at least "
             "one append reached storage")
              .c_str(),
-           { { "plain", 2500, 50000, false } },
+           { { "plain", 5000, 60000, false } },
            { "n.appends", "reach.zero_size_frame", "reach.hardware_id_gap",
              "k.stalls", "n.monitors" });
         mk("C05", "exploration",
@@ -2082,7 +2082,7 @@ struct Reg
            (std::string(rule_common) +
             "non-trivial = the monitor mapped at least one non-empty region")
              .c_str(),
-           { { "monitor", 2000, 40000, false } },
+           { { "monitor", 4000, 50000, false } },
            { "n.monitor_nonempty_maps", "reach.monitor_partial_consume",
              "reach.monitor_holds_region", "reach.monitor_spans_acquisitions",
              "n.aborts" });
@@ -2106,7 +2106,7 @@ struct Reg
             "non-trivial = at least two frames were delivered and at least "
             "one append reached storage")
              .c_str(),
-           { { "program", 4000, 80000, false } },
+           { { "program", 6000, 80000, false } },
            { "reach.start_while_running", "n.state_queries", "n.aborts" });
         mk("C09", "fault_enumeration",
            "deterministic simulation with device faults attached to a frame "
